@@ -101,28 +101,37 @@ fn unit_case(rng: &mut Rng, rep: &mut Report) {
         rep.count("operators.equal_within_8_ulps_but_not_bit_for_bit");
     }
     // trig
-    let r = catch(|| (a.sin(), a.cos(), a.sin_cos(), a.tan()));
+    let r = catch(|| (a.sin(), a.cos(), a.sin_cos()));
+    // tan is not in the statement: recorded only, and in its own catch
+    let tan = catch(|| a.tan());
     match r {
         Err(m) => rep.violation("angle.trig_panicked", format!("sin/cos panicked: {m}"), cj()),
-        Ok((s, c, (s2, c2), t)) => {
-            // "agrees": a fused sincos may differ from the separate calls
-            // in the last bit or two
-            let ulps = |p: f32, q: f32| (p as f64 - q as f64).abs() <= 2.0 * EPS * (p.abs().max(q.abs()) as f64).max(1e-30);
+        Ok((s, c, (s2, c2))) => {
+            // "agrees": to within 2e-6 absolute (sine and cosine are bounded by
+            // one; a fused or half-angle sin_cos differs from the separate calls
+            // by rounding of that size also where one of the two is tiny)
+            let ulps = |p: f32, q: f32| (p as f64 - q as f64).abs() <= 2e-6;
             if !(ulps(s, s2) && ulps(c, c2)) {
                 rep.violation("angle.sin_cos_inconsistent", format!("sin_cos = ({s2},{c2}) but sin = {s}, cos = {c}"), cj());
                 return;
             }
             let (es, ec) = ((s as f64 - (x as f64).sin()).abs(), (c as f64 - (x as f64).cos()).abs());
             let pyth = ((s as f64).powi(2) + (c as f64).powi(2) - 1.0).abs();
-            rep.worst("sin_cos_abs_err", es.max(ec), 1e-6, String::new);
-            rep.worst("sin2+cos2-1", pyth, 1e-6, String::new);
-            if !(es <= 1e-6 && ec <= 1e-6 && pyth <= 1e-6) {
+            // accuracy against f64 is not a clause either, but a sine that is
+            // not the sine breaks every consumer: judged up to the argument's
+            // own half-ulp (an f32 range reduction loses that much) + 1e-6
+            let atol = 1e-6 + EPS * (x.abs() as f64);
+            rep.worst("sin_cos_abs_err/(1e-6+eps|x|)", es.max(ec) / atol, 1.0, String::new);
+            rep.worst("sin2+cos2-1", pyth, 2e-6, String::new);
+            if !(es <= atol && ec <= atol && pyth <= 2e-6) {
                 rep.violation("angle.sin_cos_wrong", format!("sin({x}) = {s}, cos = {c}; f64 gives {}, {}; sin²+cos²−1 = {pyth:.2e}", (x as f64).sin(), (x as f64).cos()), cj());
                 return;
             }
             let tt = (x as f64).tan();
-            if tt.abs() < 1e3 && !((t as f64 - tt).abs() <= 1e-5 * (1.0 + tt * tt)) {
-                rep.violation("angle.tan_wrong", format!("tan({x}) = {t}, f64 gives {tt}"), cj());
+            match tan {
+                Ok(t) if tt.abs() < 1e3 && !((t as f64 - tt).abs() <= 1e-5 * (1.0 + tt * tt)) => rep.count("tan.differs_from_f64_by_more_than_1e-5(not a clause)"),
+                Err(_) => rep.count("tan.panicked(not a clause)"),
+                _ => {}
             }
             rep.count("trig_evaluations");
         }
@@ -194,7 +203,10 @@ fn wrap_case(rng: &mut Rng, rep: &mut Report) {
         let rho32 = d32.rem_euclid(l32);
         let rho = (x as f64 - min as f64).rem_euclid(len64);
         let tau = 2.0 * EPS * (l32 + (max as f64).abs());
-        let by_rounding = l32 - rho32 <= tau || len64 - rho <= tau;
+        // (third model: the exact difference reduced by the f32 interval
+        // length, the modulus the congruence check below uses as well)
+        let rho3 = (x as f64 - min as f64).rem_euclid(l32);
+        let by_rounding = l32 - rho32 <= tau || len64 - rho <= tau || l32 - rho3 <= tau;
         rep.count(if by_rounding { "wraps_returning_the_upper_end_by_rounding" } else { "wraps_returning_the_upper_end_without_rounding" });
         if !by_rounding {
             rep.violation(
